@@ -3,12 +3,18 @@
   invalid ones.
 
   Model: Sem/Errors.lean (message shapes, the three regexes of errors.py as matchers, the control
-  flow of `standard_readable_error_for_typedpy_exception`, `Structure.__init__` for flat classes).
+  flow of `standard_readable_error_for_typedpy_exception`, `Structure.__init__` and
+  deserialization for classes of any declarations: the path through nested collections and nested /
+  inline structures, `locate` / `dHead` over `validate` / `deser`).
   "Which fields are invalid" is `invalidFields`, defined from `validate` (Sem/Validate.lean, the
   C01/C02 model) and from nothing in the message code.
 
-  State of the code this file mirrors (/repo 4d96101, 041aebb, 9c7ef9a): the message regexes are
-  DOTALL with field group `[\w.]+`, and no check of a flat field raises a foreign exception.
+  State of the code this file mirrors (/repo 18c6055; 4d96101, 041aebb, 9c7ef9a, 23519e1, 8de2ad2,
+  3e97bbb): the message regexes are DOTALL with field group `(?:[\w.]|[^\x00-\x7f\s])+`, no check
+  raises a foreign exception, nested and inline structures name the field that holds them.
+  Further down: the parse INVERTS the formatter (`render_parse_inverts`), the suffix chain leads to a
+  rejected position (`locate_sound`), every deserialization rejection begins with its own field's
+  name at any depth (`p1SiteD_names_own_field`), derived class names (`derived_name_identOk`).
   Consequences, all proved below for every class, argument set, text and codec:
     * a message `<field>: <rest>` keeps its field for EVERY rest (newlines, `;`, anything) — the
       exact condition is only that the field text is in `[\w.]+` (`render_parse_exact`, an iff);
@@ -17,9 +23,9 @@
       text satisfies) — `render_parse`;
     * in collect-all mode the messages and `ErrorInfo.field`s are exactly the supplied fields that
       `validate` rejects, with NO condition on the texts (`collect_all_exact`).
-  What remains false: a class / field name containing a character outside `[\w.]` — e.g. a valid
-  identifier with a combining mark — still loses its field (`non_word_name_loses_field`,
-  `statement_false`).
+  What remains false (since /repo 18c6055 identifiers of every script keep their field): a class
+  name that is not an identifier — `type('My Class', …)` — still loses it
+  (`non_word_name_loses_field`, `non_identifier_class_name_loses_field`, `statement_false`).
 -/
 import TypedpyModel.Lemmas.Errors
 namespace Typedpy.C18
@@ -163,24 +169,42 @@ theorem semicolon_value_demoted :
       ⟨some "Foo.s".toList, none, "Got 'a;b'; Expected a maximum length of 2".toList⟩ := by
   decide
 
-/-- a field called `é` (`'é'.isalnum()` holds in Python) keeps its field -/
+/-- the field group of today's errors.py is a sound `Word` -/
+theorem pyFieldWord_sound : Word.Sound pyFieldWord :=
+  ⟨fun c h => by simp [pyFieldWord, h], by decide⟩
+
+/-- a field called `é` keeps its field -/
 theorem non_ascii_name_keeps_field :
-    (parseMsg (fun c => asciiWord c || c == 'é')
+    (parseMsg pyFieldWord
       (Msg.render ⟨some "Foo".toList, "é".toList, .gotLast, "'x'".toList,
         "Expected <class 'int'>".toList⟩)).field = some "Foo.é".toList := by decide
 
-/-- finding `field-lost:non-word-name` (what is left of the name findings): a path containing any
-    character outside `[\w.]` never comes back as the field, whatever the rest -/
+/-- finding `field-lost:non-word-name`: a path containing any character outside the field group
+    never comes back as the field, whatever the rest -/
 theorem non_word_name_loses_field (W : Word) (f rest : Text) (h : identOk W f = false) :
     (parseMsg W (f ++ ':' :: ' ' :: rest)).field ≠ some f := by
   intro hf
   rw [field_chars_necessary W _ f hf] at h
   exact absurd h (by simp)
 
-/-- … e.g. the valid Python identifier `x` + U+0301 (combining acute; not `isalnum`) -/
-theorem combining_mark_name_loses_field :
+/-- the identifier part of that finding is fixed by /repo 18c6055: valid identifiers with combining
+    marks / vowel signs — `x` + U+0301, Hindi `नाम` (U+093E is a vowel sign), Thai `ชื่อ` — keep their
+    field under today's field group, and were lost under `[\w.]+` (where such characters are not
+    alphanumeric: `asciiWord` answers as `str.isalnum` does for them) -/
+theorem combining_mark_name_keeps_field :
+    (parseMsg pyFieldWord (Msg.render ⟨some "Foo".toList, ['x', '́'], .gotLast, "'a'".toList,
+      "Expected <class 'int'>".toList⟩)).field = some ("Foo.".toList ++ ['x', '́']) ∧
+    (parseMsg pyFieldWord "Foo.नाम: Expected <class 'int'>; Got 'a'".toList).field = some "Foo.नाम".toList ∧
+    (parseMsg pyFieldWord "Foo.ชื่อ: Got 'ab'; Expected a maximum length of 1".toList).field = some "Foo.ชื่อ".toList ∧
     (parseMsg asciiWord (Msg.render ⟨some "Foo".toList, ['x', '́'], .gotLast, "'a'".toList,
       "Expected <class 'int'>".toList⟩)).field = none := by decide
+
+/-- what is left of the finding: a class name that is not an identifier (`type('My Class', …)`,
+    `a-b`, `Gen[int]`) still loses the field -/
+theorem non_identifier_class_name_loses_field :
+    (parseMsg pyFieldWord "My Class.i: Expected <class 'int'>; Got 'x'".toList).field = none ∧
+    (parseMsg pyFieldWord "a-b.i: Expected <class 'int'>; Got 'x'".toList).field = none ∧
+    (parseMsg pyFieldWord "Gen[int].i: Expected <class 'int'>; Got 'x'".toList).field = none := by decide
 
 /-- former findings `no-path:unnamed-inner-field:deser-collection`, `no-path:unhashable:deser-set`
     (fixed by /repo 23519e1; a regression that re-opens them produces these texts again): texts
@@ -420,10 +444,12 @@ def exTexts : Texts := fun s =>
   if s.loc.shape == .gotLast then ("'x'".toList, "Expected <class 'int'>".toList)
   else ("'abc'".toList, "Expected a maximum length of 2".toList)
 
-/-- a class whose field is the valid identifier `x` + U+0301 (not `isalnum`, in Python as in
-    `asciiWord`) -/
-def exMarkFields : List (String × FieldDecl) := [(String.ofList ['x', '́'], .integer {})]
-def exMarkKw : List (String × PyVal) := [(String.ofList ['x', '́'], .str "x")]
+/-- a class created as `type('My Class', (Structure,), {'i': Integer()})`: the space is outside
+    the field group of today's errors.py -/
+def exSpaceClass : ClassOpts := { name := "My Class", required := [] }
+def exMarkFields : List (String × FieldDecl) := [("i", .integer {})]
+def exMarkKw : List (String × PyVal) := [("i", .str "x")]
+def exPyCodec : Codec := ⟨fun _ => [], fun _ => .invalid, pyFieldWord⟩
 
 theorem asciiWord_sound : Word.Sound asciiWord := ⟨fun _ h => h, by decide⟩
 
@@ -433,21 +459,20 @@ theorem exTexts_wellFormed : TextsWellFormed exTexts := by
   cases s.loc.shape <;> decide
 
 theorem ex_raises :
-    constructRaises exOracles exTexts true exClass exMarkFields exMarkKw =
-      .single .typeErr ("Foo.".toList ++ ['x', '́'] ++ ": Expected <class 'int'>; Got 'x'".toList) := by
+    constructRaises exOracles exTexts true exSpaceClass exMarkFields exMarkKw =
+      .single .typeErr "My Class.i: Expected <class 'int'>; Got 'x'".toList := by
   decide
 
 theorem statement_false : ¬ Statement := by
   intro h
-  have := h exOracles exTexts exCodec true exClass exMarkFields exMarkKw asciiWord_sound (by simp)
+  have := h exOracles exTexts exPyCodec true exSpaceClass exMarkFields exMarkKw pyFieldWord_sound (by simp)
     exTexts_wellFormed (by decide)
   unfold Reported at this
   rw [ex_raises] at this
   obtain ⟨n, _, _, i, hi, ⟨p, hp, _⟩, _⟩ := this
   simp only [readable, if_true, Except.ok.injEq, Out.single.injEq] at hi
   rw [← hi, internal_field] at hp
-  have : (parseMsg exCodec.word
-      ("Foo.".toList ++ ['x', '́'] ++ ": Expected <class 'int'>; Got 'x'".toList)).field = none := by
+  have : (parseMsg exPyCodec.word "My Class.i: Expected <class 'int'>; Got 'x'".toList).field = none := by
     decide
   rw [this] at hp
   simp at hp
@@ -1161,6 +1186,8 @@ inductive Reaches : FieldDecl → PyVal → SufPath → FieldDecl → PyVal → 
   | mapVal {kf vf : FieldDecl} {sz : SizeOpts} {kvs : List (PyVal × PyVal)} {k x : PyVal}
       {p : SufPath} {g : FieldDecl} {w : PyVal} :
       (k, x) ∈ kvs → Reaches vf x p g w → Reaches (.mapOf kf vf sz) (.dict kvs) (.val :: p) g w
+  | allOf {fs : List FieldDecl} {f : FieldDecl} {v : PyVal} {p : SufPath} {g : FieldDecl} {w : PyVal} :
+      f ∈ fs → Reaches f v p g w → Reaches (.allOf fs) v p g w
 
 theorem firstBad_spec (O : Oracles) (f : FieldDecl) : ∀ (xs : List PyVal) (n i : Nat) (x : PyVal),
     firstBad O f n xs = some (i, x) →
@@ -1385,10 +1412,37 @@ theorem locate_sound (O : Oracles) : ∀ (f : FieldDecl) (v : PyVal),
   | .struct c fields defaults, v, h => points_here O _ v _ h (by simp only [locate]; split <;> rfl)
   | .anyOf fs, v, h => points_here O _ v _ h (by simp only [locate])
   | .oneOf fs, v, h => points_here O _ v _ h (by simp only [locate])
-  | .allOf fs, v, h => points_here O _ v _ h (by simp only [locate])
+  | .allOf fs, v, h => by
+    simp only [locate]
+    have hall : isOk (validateEach O fs v) = false := by
+      simp only [validate] at h
+      cases he : validateEach O fs v with
+      | ok u => rw [he] at h; simp [isOk] at h
+      | error e => rfl
+    obtain ⟨f, hf, g, w, hr, hw⟩ := locateAll_sound O fs v hall
+    exact ⟨g, w, Reaches.allOf hf hr, hw⟩
   | .notF fs, v, h => points_here O _ v _ h (by simp only [locate])
   | .noneF, v, h => points_here O _ v _ h (by simp only [locate])
   | .anything, v, h => points_here O _ v _ h (by simp only [locate])
+
+theorem locateAll_sound (O : Oracles) : ∀ (fs : List FieldDecl) (v : PyVal),
+    isOk (validateEach O fs v) = false →
+      ∃ f ∈ fs, ∃ g w, Reaches f v (locateAll O fs v).suffix g w ∧ isOk (validate O g w) = false
+  | [], v, h => by simp [validateEach, isOk] at h
+  | f :: fs, v, h => by
+    simp only [locateAll]
+    cases hv : validate O f v with
+    | ok y =>
+      simp only [isOk, ↓reduceIte]
+      have hrest : isOk (validateEach O fs v) = false := by
+        simp only [validateEach, hv, bindE_ok] at h; exact h
+      obtain ⟨f', hf', g, w, hr, hw⟩ := locateAll_sound O fs v hrest
+      exact ⟨f', List.mem_cons_of_mem _ hf', g, w, hr, hw⟩
+    | error e =>
+      have hbad : isOk (validate O f v) = false := by rw [hv]; rfl
+      simp only [isOk, Bool.false_eq_true, ↓reduceIte]
+      obtain ⟨g, w, hr, hw⟩ := locate_sound O f v hbad
+      exact ⟨f, List.mem_cons_self, g, w, hr, hw⟩
 
 theorem locateZip_sound (O : Oracles) : ∀ (fs : List FieldDecl) (xs : List PyVal) (n : Nat) (l : Loc),
     locateZip O n fs xs = some l →
@@ -1999,6 +2053,78 @@ theorem fixed_nested_structure_examples :
     p1SiteD O {} false [] "inner" inner (.dict [(.str "x", .str "a")]) =
       some ⟨"inner", .named, some "inner".toList, .typeErr⟩ ∧
     p1SiteD O {} false [] "sr" sr bad = some ⟨"sr", .named, some "sr: Got ".toList, .valueErr⟩ := by
+  decide
+
+
+
+/-! ### the reported fields of phase one, as a list -/
+
+/-- `deserialize_single_field` rejects the document value (flat fields: the scratch-aware flat
+    model; every other declaration: `deser`) -/
+def p1RejectsD (O : Oracles) (opts : DeserOpts) (ign : Bool) (f : FieldDecl) (v : PyVal) : Bool :=
+  if isFlatDecl f then p1Rejects O f v else !isOk (deser O opts ign f v)
+
+/-- in collect-all mode the first phase reports, in field order, EXACTLY the supplied non-null
+    fields whose document value `deserialize_single_field` rejects — every class, every declaration,
+    any depth, every scratch state -/
+theorem p1SitesD_tops (O : Oracles) (opts : DeserOpts) (ign : Bool)
+    (scr : List (String × List (Option String))) (doc : List (String × PyVal))
+    (fields : List (String × FieldDecl)) :
+    (p1SitesD O opts ign scr doc fields).map (·.top) =
+      fields.filterMap fun nf =>
+        match lookup nf.1 doc with
+        | none => none
+        | some v => if !v.isNone && p1RejectsD O opts ign nf.2 v then some nf.1 else none := by
+  induction fields with
+  | nil => rfl
+  | cons nf rest ih =>
+    simp only [p1SitesD, List.filterMap_cons] at ih ⊢
+    cases hl : lookup nf.1 doc with
+    | none => simpa [hl] using ih
+    | some v =>
+      by_cases hv : v.isNone = true
+      · simpa [hv] using ih
+      · simp only [hv, Bool.false_eq_true, if_false, Bool.not_false, Bool.true_and]
+        have hsome := p1SiteD_isSome O opts ign ((lookup nf.1 scr).getD []) nf.1 nf.2 v
+        cases hs : p1SiteD O opts ign ((lookup nf.1 scr).getD []) nf.1 nf.2 v with
+        | none =>
+          rw [hs] at hsome
+          have : p1RejectsD O opts ign nf.2 v = false := by
+            unfold p1RejectsD; exact hsome.symm
+          simpa [this] using ih
+        | some s =>
+          rw [hs] at hsome
+          have hr : p1RejectsD O opts ign nf.2 v = true := by
+            unfold p1RejectsD; exact hsome.symm
+          have ht := p1SiteD_top O opts ign _ nf.1 nf.2 v s hs
+          simp only [hr, if_true, List.map_cons, ht]
+          exact congrArg _ ih
+
+
+
+/-! ### multi-field wrappers -/
+
+/-- `AllOf[Array[Integer], Array[Number(maximum=3)]]` given `[1, 7]`: the second option rejects
+    element 1 and the message is ITS message under the AllOf's own name (`allf_1`); AnyOf / OneOf
+    reject at the field itself with the plain shape, NotField value-first; inside an Array the
+    wrapper's path is the element's (`aany_1`) -/
+theorem wrapper_path_examples :
+    let O : Oracles := exOracles
+    let arr (f : FieldDecl) : FieldDecl := .seqOf .list f {}
+    let num3 : FieldDecl := .number { max := some (Q.ofInt 3) }
+    let str : FieldDecl := .string none none none
+    locate O (.allOf [arr (.integer {}), arr num3]) (.list [.int 1, .int 7]) = ⟨[.idx 1], .gotFirst, none⟩ ∧
+    locate O (.allOf [arr (.integer {}), arr num3]) (.int 5) = ⟨[], .gotFirst, none⟩ ∧
+    locate O (.anyOf [.integer {}, str]) (.list []) = ⟨[], .plain, none⟩ ∧
+    locate O (.oneOf [.integer {}, .number {}]) (.int 5) = ⟨[], .plain, none⟩ ∧
+    locate O (.notF [.integer {}]) (.int 1) = ⟨[], .gotFirst, none⟩ ∧
+    locate O (arr (.anyOf [.integer {}, str])) (.list [.int 1, .list [.int 2]]) = ⟨[.idx 1], .plain, none⟩ ∧
+    isOk (validate O (.oneOf [.integer {}, .number {}]) (.int 5)) = false ∧
+    (parseMsg asciiWord "Outer.one: : Got 5; Matched more than one field option".toList).field
+      = some "Outer.one".toList ∧
+    (parseMsg asciiWord "Outer.any: 's' of type str did not match any field option. Valid types are: int, list.".toList)
+      = ⟨some "Outer.any".toList, none,
+         "'s' of type str did not match any field option. Valid types are: int, list.".toList⟩ := by
   decide
 
 
